@@ -30,7 +30,7 @@ PROPS = {
     claim="Proof that the source multi-index produced by transpose/moveaxis/swapaxes/tile/repeat(non-repeated axes)/roll indexers lies inside the source shape for every in-shape destination index, and that static_vector never holds more than its capacity (inductive invariant over every mutator); buffer-position bounds for run-time shapes (non-linear) and slice-based views are not decided.",
     note=E1_NOTE,
     technique=E1_TECH,
-    e1=[dict(tu="c03_rearrange.cpp"), dict(tu="c03b_dynamic.cpp"), dict(tu="c04_select.cpp"), dict(tu="c19_utl.cpp"), dict(tu="c02_capacity.cpp"), dict(tu="c03c_reshape.cpp")],
+    e1=[dict(tu="c03_rearrange.cpp"), dict(tu="c03b_dynamic.cpp"), dict(tu="c04_select.cpp"), dict(tu="c19_utl.cpp"), dict(tu="c02_capacity.cpp"), dict(tu="c03c_reshape.cpp"), dict(tu="c06b_broadcast_to.cpp")],
     e2=[dict(rule="R-SIMD")],
     rule=E1_RULE,
     explanation="in-shape obligations are stated through the view's own indexer (indexing_t / decorator_t on the path); capacity obligations are an inductive class invariant (assume on entry, prove on exit).",
@@ -62,10 +62,10 @@ PROPS = {
  ),
  "C06": dict(
     level="proof",
-    claim="Proof that pairwise broadcast_shape is sound and complete w.r.t. NumPy's rule (value exactly when all right-aligned pairs are equal-or-1, then the per-axis maximum) for all rank pairs up to 3x3 (thorough 4x4) and every extent - hence order independent -, idempotent, None-neutral, and that the variadic form is the left fold of the pairwise rule; element law of broadcast_to and associativity are not decided.",
+    claim="Proof that pairwise broadcast_shape is sound and complete w.r.t. NumPy's rule (value exactly when all right-aligned pairs are equal-or-1, then the per-axis maximum) for all rank pairs up to 3x3 (thorough 4x4) and every extent - hence order independent -, idempotent, None-neutral, that the variadic form is the left fold of the pairwise rule, and for view::broadcast_to (source ranks 1..3 into target ranks 1..3, every stretch pattern): value exactly when each source extent is 1 or equals the right-aligned target extent, shape = target, source index inside the source shape, stretched axes read source index 0 (kept axes: proved for rank-1 sources only); associativity is not decided.",
     note=E1_NOTE,
     technique=E1_TECH,
-    e1=[dict(tu="c06_broadcast.cpp")],
+    e1=[dict(tu="c06_broadcast.cpp"), dict(tu="c06b_broadcast_to.cpp")],
     rule=E1_RULE,
     explanation="soundness and completeness are stated per first incompatible aligned axis (nested case split with the call inside each case).",
     not_decided="broadcast_to/broadcast_arrays element law, associativity beyond the fold structure, dynamic/clipped containers",
@@ -76,7 +76,7 @@ PROPS = {
     claim="Proof of the value/Nothing boundary of broadcast_shape (all rank pairs up to 3x3), of moveaxis with in-range versus out-of-range compile-time and run-time axes, of normalize_axis (scalar and arrays of 1..3 axes, every ndim <= 64) with NumPy's normalised value, and of shape_reshape (element-count mismatch, zero extent, negative extent, two -1, one -1 with/without divisibility, inferred extent = numel / product of the others); plus, over ~6000 instantiated functions of the maybe-lifting layer (index, view, eval, kernel helper, isequal/isclose), every dereference of a maybe-typed expression is dominated by the true edge of a truth test on that expression, and every integer division in index/ and view/ has a validated or role-justified divisor (the reshape divisor is tied to the zero-extent validation). The value/Nothing boundary of the remaining operations is not decided.",
     note=E1_NOTE + " " + E2_NOTE,
     technique=E1_TECH + " + CFG typestate/dominance rules (test-before-dereference, zero-guarded division) on instantiations",
-    e1=[dict(tu="c06_broadcast.cpp"), dict(tu="c03_rearrange.cpp"), dict(tu="c03b_dynamic.cpp"), dict(tu="c15_args.cpp")],
+    e1=[dict(tu="c06_broadcast.cpp"), dict(tu="c03_rearrange.cpp"), dict(tu="c03b_dynamic.cpp"), dict(tu="c15_args.cpp"), dict(tu="c06b_broadcast_to.cpp")],
     e2=[dict(rule="R-MAYBE-DIV")],
     rule=E1_RULE + "; E2: one instance per dereference of a maybe-typed expression / per integer division site in the instantiated lifting functions (drivers/maybe_inst.cpp)",
     explanation="value exactly when NumPy accepts, Nothing exactly when NumPy raises, for the listed operations; an empty optional is never dereferenced = every dereference is dominated by a truth test of the same expression (typestate rule on the CFG); no division by an unvalidated user-derived divisor.",
